@@ -591,7 +591,7 @@ package otr3
 //@   ensures [C03.gen.refuse] old(c.msgState) != encrypted ==> (result2 == errCannotSendUnencrypted && c.resend.messages.m === old(c.resend.messages.m))
 //@   ensures [C04.send.pair,C10.keyids] result2 == nil ==> (result0.senderKeyID == c.keys.ourKeyID - 1 && result0.recipientKeyID == c.keys.theirKeyID && result0.y == c.keys.ourCurrentDHKeys.pub && result0.flag == flag)
 //@   ensures [C10.ctr.start,C04.send.ctr] result2 == nil ==> be64arr(result0.topHalfCtr) != 0
-//@   ensures [C09.disclose.next] result2 == nil ==> (result0.oldMACKeys === old(c.keys.oldMACKeys) && len(c.keys.oldMACKeys) == 0)
+//@   ensures [C09.disclose.next,C19.oldmac.flush] result2 == nil ==> (result0.oldMACKeys === old(c.keys.oldMACKeys) && len(c.keys.oldMACKeys) == 0)
 //@   ensures [C18.last.flag] result2 == nil ==> c.resend.mayRetransmit == noRetransmit
 //@   ensures [C03.ctr.advance,C04.send.ctr.advance,C10.ctr.unique] result2 == nil ==> (forall i in 0..len(old(c.keys.counterHistory.counters)) :: (old(pairAt(c.keys.counterHistory, i, c.keys.ourKeyID - 1, c.keys.theirKeyID)) && old(c.keys.counterHistory.counters[i].ourCounter) < 9223372036854775807) ==> c.keys.counterHistory.counters[i].ourCounter > old(c.keys.counterHistory.counters[i].ourCounter))
 //@   ensures result2 == nil ==> (result0.y != nil && len(result0.authenticator) == 20)
@@ -1143,3 +1143,56 @@ package otr3
 //@   ensures [C11.secret.resp.set] c.msgState == encrypted ==> (c.smp.secret != nil && fresh(c.smp.secret))
 //@   ensures [C11.secret.resp] (c.msgState == encrypted && typeisptr(c.theirKey, DSAPublicKey)) ==> val(c.smp.secret) == smpSecretTerm(fpterm(iref(c.theirKey)), fpterm(pubref(iref(c.ourCurrentKey))), old(bytesof(c.ssid)), old(bytes(mutualSecret)))
 //@   ensures [C12.continue.unencrypted] c.msgState != encrypted ==> (isExp1(result0) && result2 == errCantAuthenticateWithoutEncryption && c.smp.secret == old(c.smp.secret))
+
+// ---------------------------------------------------------------------------
+// receive.go: the Receive entry point (C13, C16, C19)
+// ---------------------------------------------------------------------------
+//@ func (*Conversation).receiveErrorMessage
+//@   requires convOK(c) && len(message) >= 11
+//@   modifies anything
+//@   modifies msglog(c)
+//@ func (*Conversation).receiveQueryMessage
+//@   requires convOK(c)
+//@   modifies anything
+//@   modifies msglog(c), akeWiped(c.ake), akeKeysWiped(c.ake), kmcWiped(addr(c.ake.keys)), keysWiped(addr(c.ake.keys))
+//@ func (*Conversation).receiveTaggedPlaintext
+//@   requires convOK(c)
+//@   modifies anything
+//@   modifies msglog(c), akeWiped(c.ake), akeKeysWiped(c.ake), kmcWiped(addr(c.ake.keys)), keysWiped(addr(c.ake.keys))
+//@ func (*Conversation).receivePlaintext
+//@   requires c != nil
+//@   modifies anything
+//@   modifies msglog(c)
+//@   ensures [C16.plain.exact] err == nil && len(plain) == len(message) && (forall i in 0..len(message) :: plain[i] == old(message[i]))
+//@ func (*Conversation).receiveEncoded
+//@   requires convOK(c)
+//@   modifies anything
+//@   modifies macok(nil), mackey(nil), commitok(nil), akemacok(nil), sigok(nil), seclog(c), msglog(c), smplog(c), kmcWiped(addr(c.keys)), keysWiped(addr(c.keys)), akeWiped(c.ake), akeKeysWiped(c.ake), kmcWiped(addr(c.ake.keys)), keysWiped(addr(c.ake.keys))
+//@   opaque
+//@ func (*Conversation).toSendEncoded
+//@   requires c != nil && (err == nil && len(toSend) > 0 ==> c.version != nil)
+//@   modifies anything
+//@   ensures result0 === plain && result2 == err
+
+//@ func (*Conversation).receiveUnit
+//@   requires convOK(c) && len(c.injections.messages) == 0
+//@   modifies anything
+//@   modifies macok(nil), mackey(nil), commitok(nil), akemacok(nil), sigok(nil), seclog(c), msglog(c), smplog(c), kmcWiped(addr(c.keys)), keysWiped(addr(c.keys)), akeWiped(c.ake), akeKeysWiped(c.ake), kmcWiped(addr(c.ake.keys)), keysWiped(addr(c.ake.keys))
+//@   ensures [C19.injections.flushed] len(c.injections.messages) == 0
+//@   ensures [C16.disabled.recv.a] (!hasPol(c, allowV2) && !hasPol(c, allowV3)) ==> (err == nil && len(toSend) == 0)
+//@   ensures [C16.disabled.recv.b] (!hasPol(c, allowV2) && !hasPol(c, allowV3)) ==> len(plain) == len(m)
+//@   ensures [C16.disabled.recv] (!hasPol(c, allowV2) && !hasPol(c, allowV3)) ==> (forall i in 0..len(m) :: plain[i] == old(m[i]))
+//@   decreases ite(forgetFragments, 1, 0)
+
+//@ func (*Conversation).dhCommitMessage
+//@   requires c != nil && c.version != nil
+//@   modifies anything
+//@   preserves [C07.commitmsg.frame] c.msgState, c.theirKey, c.version, c.ourCurrentKey, c.sentRevealSig, c.keys.ourKeyID, c.keys.theirKeyID, c.Policies
+//@   ensures result1 == nil ==> (c.ake != nil && fresh(c.ake) && c.ake.ourPublicValue != nil && nonglobal(result0))
+//@ func (*Conversation).sendDHCommit
+//@   requires c != nil && c.version != nil
+//@   modifies anything
+//@   modifies akeWiped(c.ake), akeKeysWiped(c.ake), kmcWiped(addr(c.ake.keys)), keysWiped(addr(c.ake.keys))
+//@   preserves [C07.start.frame] c.msgState, c.theirKey, c.version, c.ourCurrentKey, c.sentRevealSig, c.keys.ourKeyID, c.keys.theirKeyID, c.Policies
+//@   ensures [C07.start.commit] err == nil ==> (c.ake != nil && isAwDHKey(c.ake.state) && len(toSend) >= 3)
+//@   ensures [C08.restart.wipe] old(c.ake) != nil ==> (akeWiped(old(c.ake)) == old(akeWiped(c.ake)) + 1 && akeKeysWiped(old(c.ake)) == old(akeKeysWiped(c.ake)) + 1)
